@@ -11,7 +11,9 @@ from .. import jsongen, lib, msggen
 from ..lib import cl, ce, cbool, CN
 
 IMPORTS = ("Model.Types Model.Object Model.Eq Model.Encode Model.Canon Model.WellFormed Model.Json Proofs.C04Def gen.Tables")
-EXTRA_TARGETS = ["Model/Canon.vo", "Model/Json.vo", "Proofs/C04Def.vo"]
+EXTRA_TARGETS = ["Model/Canon.vo", "Model/Json.vo", "Proofs/C04Def.vo", "Model/C04RepWrap.vo", "Proofs/C04InclDef.vo"]
+# stage 2 (include_default_values=True, repeated wrappers): the definitions the second part of Properties/C04.v is stated with
+IMPORTS_INCL = IMPORTS + " Model.C04RepWrap Proofs.C04InclDef"
 
 TRUSTED = [
     "Coq 8.16.1 kernel and vm_compute (no native_compute); full .vo build via coq_makefile",
@@ -31,13 +33,19 @@ TRUSTED = [
 ASSUMPTIONS = [
     "Python int is Z; str is its UTF-8 bytes (no lone surrogates); float is its binary64 pattern; aware datetimes are microseconds since the epoch",
     "object identity / aliasing is not modelled (from_dict stores the caller's list and dict objects in the message)",
-    "theorems are about to_dict(include_default_values=False), the default; include_default_values=True is covered by the correspondence only",
+    "the first part of Properties/C04.v is about to_dict(include_default_values=False), the default; include_default_values=True is the "
+    "second part: the == half of the round trip under defaults_reach (Cls().to_dict(include_default_values=True) terminates for every unset "
+    "plain sub-message: no recursive class is entered; C04_incl_eq_rt, C04_incl_dumps_total), both halves under all_present (every plain "
+    "sub-message field outside a oneof holds a present message, at every depth: C04_incl_dict_rt / C04_incl_text_rt); without all_present the "
+    "bytes differ (open finding C04-K3, C04_incl_unset_submessage_refuted); both side conditions are evaluated in Coq and compared with a "
+    "Python walk on every case of stage 2",
     "hypotheses of C04_dict_rt / C04_text_rt: wf_schema, keys_ok (the keys of a class are distinct and map back, C19), good = in_range "
     "(C01's in-range values) + oneof_ok (a oneof member holds a value iff its group selects it) + dicts_ok (dict keys distinct, a Python "
     "invariant) + json_supported = no unknown fields, no lazily created non-empty intermediates (K12), NaN canonical and not inside "
     "repeated/map; C04_dumps_total needs only wf_schema, in_range, oneof_ok",
-    "repeated wrapper fields (repeated google.protobuf.BytesValue ...) are outside WellFormed.wf_schema: covered by the correspondence and "
-    "the oracle (own schema of this check), not by the theorems",
+    "repeated wrapper fields (repeated google.protobuf.BytesValue ...) are outside the shared WellFormed.wf_schema / in_range: the theorems "
+    "C04_repwrap_* and C04_general_* are stated over the extensions wfx_schema / in_rangex / goodx of coq/Model/C04RepWrap.v (conservative: "
+    "C04_wfx_extends_wf), which stage 2 evaluates on the wrapper schema of this check and on every other generated schema",
 ]
 RULE = ("messages of the systematic schema (every scalar kind x {plain, optional, repeated, oneof member, map value, map key, wrapper}, "
         "nested/recursive, Timestamp/Duration, enums with aliases/negatives/unnamed numbers) and of random schemas; values from boundary/"
@@ -258,6 +266,266 @@ def make_lazy(s, ci, m):
     return False
 
 
+# --------------------------------------------------------------------------------------
+# stage 2: include_default_values=True and repeated wrapper fields (second part of Properties/C04.v)
+# --------------------------------------------------------------------------------------
+INCL_BYTES_CLS = "incl-unset-submessage"
+
+
+def incl_schema():
+    """a schema without any recursive class (Cls().to_dict(include_default_values=True) terminates): plain / optional / repeated /
+    map / oneof / wrapper positions of a sub-message and of scalars, Timestamp, enum, bytes, int64; a second level of nesting"""
+    S, E, F, C = msggen.scalar, msggen.Elem, msggen.Field, msggen.Cls
+    leaf = C("Leaf", [F("y", 1, "plain", S("int32")), F("s", 2, "plain", S("string")), F("t", 3, "plain", E("datetime", "message")),
+                      F("e", 4, "plain", E("enum", "enum", 0)), F("b", 5, "plain", S("bytes")), F("q", 6, "plain", S("int64")),
+                      F("o", 7, "optional", S("int32")), F("d", 8, "plain", E("timedelta", "message"))])
+    mid = C("Mid", [F("leaf", 1, "plain", E("msg", "message", 0)), F("n", 2, "plain", S("uint32")),
+                    F("ol", 3, "optional", E("msg", "message", 0))])
+    outer = C("Outer", [F("x", 1, "plain", S("int32")), F("sub", 2, "plain", E("msg", "message", 0)),
+                        F("o", 3, "optional", S("int32")), F("os", 4, "optional", E("msg", "message", 0)),
+                        F("rs", 5, "repeated", E("msg", "message", 0)), F("m", 6, "map", E("msg", "message", 0), key=S("string")),
+                        F("u", 7, "plain", S("int64"), group=0), F("v", 8, "plain", E("msg", "message", 0), group=0),
+                        F("w", 9, "wrapper", S("int64")), F("d", 10, "plain", S("double")), F("t", 11, "plain", E("datetime", "message")),
+                        F("mid", 12, "plain", E("msg", "message", 1)), F("rd", 13, "repeated", S("double")),
+                        F("mi", 14, "map", S("bytes"), key=S("int32"))], ngroups=1)
+    return msggen.Schema([leaf, mid, outer], [[("ZERO", 0), ("ONE", 1), ("NEG", -1)]])
+
+
+def _nested_messages(schema, c, m):
+    import betterproto as bp
+    for f in c.fields:
+        v = jsongen.raw(m, f.name)
+        if v is bp.PLACEHOLDER or v is None:
+            continue
+        items = list(v) if isinstance(v, list) else list(v.values()) if isinstance(v, dict) else [v]
+        for x in items:
+            if isinstance(x, bp.Message):
+                yield f, x
+
+
+def py_all_present(schema, m):
+    """C04InclDef.all_present on the real object: every plain sub-message field outside a oneof, at every depth, holds a message
+    whose _serialized_on_wire is True"""
+    import betterproto as bp
+    c = schema.classes[schema.index_of[type(m)] - msggen.NBUILTIN]
+    for f in c.fields:
+        if f.card == "plain" and f.elem.kind == "msg" and f.group is None:
+            v = jsongen.raw(m, f.name)
+            if not (isinstance(v, bp.Message) and jsongen.raw(v, "_serialized_on_wire")):
+                return False
+    return all(py_all_present(schema, x) for _, x in _nested_messages(schema, c, m))
+
+
+DEFAULT_FUEL = 6          # Model/Json.v default_fuel
+
+
+def py_defaults_ok(schema, fuel, ci):
+    """C04InclDef.defaults_ok: the chain of plain sub-message fields below class ci is shorter than the fuel"""
+    if fuel == 0:
+        return False
+    return all(py_defaults_ok(schema, fuel - 1, f.elem.ref) for f in schema.classes[ci].fields
+               if f.card == "plain" and f.elem.kind == "msg" and f.group is None)
+
+
+def py_defaults_reach(schema, m):
+    import betterproto as bp
+    c = schema.classes[schema.index_of[type(m)] - msggen.NBUILTIN]
+    for f in c.fields:
+        if f.card == "plain" and f.elem.kind == "msg" and f.group is None and jsongen.raw(m, f.name) is bp.PLACEHOLDER:
+            if not py_defaults_ok(schema, DEFAULT_FUEL, f.elem.ref):
+                return False
+    return all(py_defaults_reach(schema, x) for _, x in _nested_messages(schema, c, m))
+
+
+def make_present(schema, ci, m, rng, depth=0):
+    """give every unset plain sub-message field (outside a oneof) a PRESENT empty message, the way a peer does: received as `tag 00`"""
+    import betterproto as bp
+    if depth > 6:
+        return
+    for f in schema.classes[ci].fields:
+        if f.card == "plain" and f.elem.kind == "msg" and f.group is None:
+            v = jsongen.raw(m, f.name)
+            if not isinstance(v, bp.Message):
+                v = schema.classes[f.elem.ref].py().parse(b"")
+                setattr(m, f.name, v)
+            elif not jsongen.raw(v, "_serialized_on_wire"):
+                v._serialized_on_wire = True
+    c = schema.classes[ci]
+    for f, x in _nested_messages(schema, c, m):
+        make_present(schema, f.elem.ref, x, rng, depth + 1)
+
+
+def incl_stage(ctx, schemas, not_wf, recursive):
+    """correspondence of the side conditions and the normal form of the include_default_values=True / repeated wrapper theorems
+    (all_present, defaults_reach, wfx_schema, in_rangex, goodx, gnorm_obj) with the implementation, and the oracle: the property
+    itself through to_dict(include_default_values=True) on the implementation"""
+    import betterproto as bp
+    rng = ctx.rng
+    t1 = time.time()
+    schemas = list(schemas) + [incl_schema()]
+    own = {len(schemas) - 1}
+    recursive = list(recursive) + [recursive_classes(schemas[-1])]
+    prelude = "\n".join(f"Definition sc{i} : schema := {s.coq()}." for i, s in enumerate(schemas))
+    pairs, meta = [], []
+    for si, s in enumerate(schemas):
+        pairs.append((f"CL [cbool (wfx_schema sc{si}); cbool (wf_schema sc{si})]", cl([cbool(True), cbool(si not in not_wf)])))
+        meta.append((si, None, None, "schema", None))
+
+    def one(si, s, ci, m, tag):
+        cls = type(m)
+        cidx = msggen.NBUILTIN + ci
+        lit = msggen.obj_literal(s, m)            # BEFORE any observer
+        feats = jsongen.features(s, m)
+        if nan_payload(s, m):
+            feats.add("nan-payload")
+        supported = not (feats & {"unknown-fields", "lazy-intermediate", "nan-in-container", "nan-payload"})
+        clean = "oneof-unclean" not in feats
+        in_range = jsongen.in_range(s, m)
+        present = py_all_present(s, m)
+        reach = py_defaults_reach(s, m)
+        good = supported and clean and in_range
+        model = [f"cbool (all_present sc{si} o)", f"cbool (defaults_reach sc{si} o)", f"cbool (in_rangex sc{si} o)",
+                 f"cbool (goodx sc{si} o)"]
+        exp = [cbool(present), cbool(reach), cbool(in_range), cbool(good)]
+        dicts = {}
+        if reach:
+            for cs in CASINGS:
+                try:
+                    dicts[cs] = copy.deepcopy(m).to_dict(casing=getattr(bp.Casing, cs), include_default_values=True)
+                except RecursionError:
+                    ctx.fail("oracle", "to_dict(include_default_values=True) raises RecursionError although defaults_reach holds", cls=None,
+                             input={"schema": s.describe(), "class": s.classes[ci].name, "repr": repr(m)[:2000], "casing": cs})
+                except msggen.Unmodellable:
+                    raise
+                except Exception as e:  # noqa
+                    ctx.fail("oracle", f"to_dict(include_default_values=True) raises {type(e).__name__}: {e}", cls=None,
+                             input={"schema": s.describe(), "class": s.classes[ci].name, "repr": repr(m)[:2000], "casing": cs})
+        # the normal form of the theorems is what the implementation builds
+        if good and reach and "CAMEL" in dicts:
+            d = dicts["CAMEL"]
+            model.append(f"cv_of_obj (gnorm_obj true sc{si} o)")
+            exp.append(snap(s, lambda: cls.from_dict(d)))
+            model.append(f"cv_obj_res (json_rt_inst SNAKE true sc{si} o (new sc{si} {cidx}))")
+            exp.append(snap(s, lambda: cls().from_json(copy.deepcopy(m).to_json(casing=bp.Casing.SNAKE, include_default_values=True))))
+        if good and si in not_wf:
+            d0 = copy.deepcopy(m).to_dict()
+            model.append(f"cv_of_obj (gnorm_obj false sc{si} o)")
+            exp.append(snap(s, lambda: cls.from_dict(d0)))
+        pairs.append((f"(let o := {lit} in CL [" + "; ".join(model) + "])", cl(exp)))
+        meta.append((si, ci, m, tag, feats))
+        ctx.count("incl:cases")
+        if good and present:
+            ctx.count("incl:meets_all_hypotheses_of_C04_incl_dict_rt")
+        if good and reach and not present:
+            ctx.count("incl:meets_hypotheses_of_C04_incl_eq_rt_only")
+        if good and si in not_wf:
+            ctx.count("incl:meets_all_hypotheses_of_C04_repwrap_dict_rt")
+        # ---- oracle: the property itself, through to_dict(include_default_values=True)
+        if not in_range or not clean or not reach:
+            ctx.count("incl:oracle_skipped_outside_domain")
+            return
+        try:
+            b = bytes(copy.deepcopy(m))
+        except Exception:  # noqa
+            ctx.count("incl:oracle_skipped_unencodable")
+            return
+        inp = {"schema": s.describe(), "class": s.classes[ci].name, "repr": repr(m)[:2000], "tag": tag, "features": sorted(feats),
+               "all_present": present, "include_default_values": True}
+        for cs in CASINGS:
+            d = dicts.get(cs)
+            if d is None:
+                continue
+            try:
+                text = json.dumps(d)
+            except Exception as e:  # noqa
+                ctx.fail("oracle", f"json.dumps(to_dict(m, include_default_values=True)) raises {type(e).__name__}: {e}", cls=None,
+                         input=dict(inp, casing=cs, dict=repr(d)[:1500]))
+                text = None
+            forms = [("from_dict(class)", lambda: cls.from_dict(d)), ("from_dict(instance)", lambda: cls().from_dict(d))]
+            if text is not None:
+                forms += [("from_dict(class) via text", lambda: cls.from_dict(json.loads(text))),
+                          ("from_json(to_json)", lambda: cls().from_json(copy.deepcopy(m).to_json(casing=getattr(bp.Casing, cs),
+                                                                                                   include_default_values=True)))]
+            for name, f in forms:
+                try:
+                    r = f()
+                except Exception as e:  # noqa
+                    ctx.fail("oracle", f"{name} raises {type(e).__name__} on to_dict(m, include_default_values=True)", cls=None,
+                             input=dict(inp, casing=cs, dict=repr(d)[:1500], error=str(e)[:300]))
+                    continue
+                if not (r == m):
+                    k = [c for c in EQ_CLASSES if c in feats]
+                    ctx.fail("oracle", f"{name}(to_dict(m, include_default_values=True)) != m", cls=k[0] if k else None,
+                             input=dict(inp, casing=cs, dict=repr(d)[:1500], result=repr(r)[:1500]))
+                try:
+                    rb = bytes(r)
+                except Exception as e:  # noqa
+                    rb = f"raises {type(e).__name__}: {e}"
+                if rb != b:
+                    k = [c for c in BYTES_CLASSES if c in feats] + ([INCL_BYTES_CLS] if not present else [])
+                    ctx.fail("oracle", f"bytes({name}(to_dict(m, include_default_values=True))) != bytes(m)", cls=k[0] if k else None,
+                             input=dict(inp, casing=cs, dict=repr(d)[:1500], bytes=b.hex()[:400],
+                                        result_bytes=(rb.hex() if isinstance(rb, bytes) else rb)[:400]))
+
+    # the witness of C04_incl_unset_submessage_refuted and its repaired twin, on the non-recursive schema
+    sx = schemas[-1]
+    xi = len(schemas) - 1
+    Outer, Leaf, Mid = sx.classes[2].py, sx.classes[0].py, sx.classes[1].py
+    fixed = [("incl-unset-submessage", Outer(x=3)),
+             ("incl-fresh-submessage-ctor", Outer(x=3, sub=Leaf(), mid=Mid())),
+             ("incl-present-empty", Outer(x=3, sub=Leaf().parse(b""), mid=Mid(leaf=Leaf().parse(b"")).parse(b""))),
+             ("incl-present-values", Outer(sub=Leaf(y=7, q=2 ** 40, b=b"ab"), mid=Mid(leaf=Leaf(s="x"), n=1), os=Leaf(), rs=[Leaf(), Leaf(y=1)],
+                                           m={"a": Leaf()}, v=Leaf(), d=0.0, rd=[0.0, -0.0], mi={1: b"", -7: b"x"}))]
+    for tag, m in fixed:
+        try:
+            one(xi, sx, 2, m, tag)
+        except (msggen.Unmodellable, RecursionError):
+            ctx.count("incl:unmodellable")
+    sw_i = [i for i in not_wf][0]
+    sw = schemas[sw_i]
+    RW = sw.classes[0].py
+    for tag, m in [("repeated-wrapper-empty", RW()),
+                   ("repeated-wrapper-values", RW(rw_bytes=[b"ab", b""], rw_int64=[2 ** 40, 0, -1], rw_double=[float("inf"), 1.5],
+                                                  rw_string=["", "x"], rw_bool=[True, False], rw_uint64=[2 ** 64 - 1], w_bytes=b"x")),
+                   ("repeated-wrapper-nan", RW(rw_double=[float("nan")]))]:
+        try:
+            one(sw_i, sw, 0, m, tag)
+        except (msggen.Unmodellable, RecursionError):
+            ctx.count("incl:unmodellable")
+    n_per = (25 if not ctx.thorough else 250)
+    for si, s in enumerate(schemas):
+        k = n_per * (3 if si in own else 1)
+        for _ in range(k):
+            ci = rng.randrange(len(s.classes))
+            try:
+                m = msggen.gen_message(s, ci, rng, in_range=rng.random() < 0.9)
+                if ci not in recursive[si] and rng.random() < (0.6 if si in own else 0.4):
+                    make_present(s, ci, m, rng)
+                one(si, s, ci, m, "random")
+            except (msggen.Unmodellable, RecursionError):
+                ctx.count("incl:unmodellable")
+                continue
+            except Exception as e:  # constructing the value itself failed: not this property's business
+                ctx.count("incl:construct_error:" + type(e).__name__)
+                continue
+    t_gen = time.time() - t1
+    bad = lib.coq_compare(ctx, "c04incl", IMPORTS_INCL, pairs, chunk=max(8, len(pairs) // 16 + 1), prelude=prelude)
+    ctx.notes.append(f"stage 2 (include_default_values=True, repeated wrappers): python side {t_gen:.1f}s, coq side "
+                     f"{time.time() - t1 - t_gen:.1f}s, {len(pairs)} cases")
+    for i in bad[:20]:
+        si, ci, m, tag, feats = meta[i]
+        if tag == "schema":
+            ctx.fail("corr", "a generated schema does not meet wfx_schema / wf_schema as expected (hypotheses of the theorems)",
+                     input={"schema": schemas[si].describe()})
+            continue
+        ctx.fail("corr", "model side conditions / normal form of the include_default_values=True and repeated wrapper theorems "
+                         "(all_present, defaults_reach, in_rangex, goodx, gnorm_obj) and implementation disagree",
+                 input={"schema": schemas[si].describe(), "class": schemas[si].classes[ci].name, "repr": repr(m)[:2000], "tag": tag,
+                        "features": sorted(feats), "model_expr": pairs[i][0][:DBG], "implementation": pairs[i][1][:DBG]})
+    ctx.cov["disagreements_checked"] += len(pairs)
+    schemas[-1].dispose()
+
+
 def run(ctx):
     import betterproto as bp
     rng = ctx.rng
@@ -449,6 +717,8 @@ def run(ctx):
                  input={"schema": schemas[si].describe(), "class": schemas[si].classes[ci].name, "repr": repr(m)[:2000], "tag": tag,
                         "features": sorted(feats), "model_expr": pairs[i][0][:DBG], "implementation": pairs[i][1][:DBG]})
     ctx.cov["disagreements_checked"] = len(pairs)
+    # stage 2 (added; the stage above is unchanged): include_default_values=True and repeated wrapper fields
+    incl_stage(ctx, schemas, not_wf, recursive)
     for s in schemas:
         s.dispose()
 
